@@ -115,6 +115,7 @@ func xmlUnmarshalElement(el *etree.Element, obj interface{}) error {
 func withNeutralNamespacePrefixes(el *etree.Element) *etree.Element {
 	renamed := el.Copy()
 	count := 0
+	uris := map[string]string{} // generated prefix -> namespace name
 
 	var walk func(e *etree.Element, scope map[string]string)
 	walk = func(e *etree.Element, scope map[string]string) {
@@ -133,6 +134,7 @@ func withNeutralNamespacePrefixes(el *etree.Element) *etree.Element {
 			}
 			count++
 			scope[a.Key] = fmt.Sprintf("ns%d", count)
+			uris[scope[a.Key]] = a.Value
 			e.Attr[i].Key = scope[a.Key]
 		}
 		if p, ok := scope[e.Space]; ok {
@@ -146,6 +148,7 @@ func withNeutralNamespacePrefixes(el *etree.Element) *etree.Element {
 				e.Attr[i].Space = p
 			}
 		}
+		orderAttributesForDecoding(e.Attr, uris)
 		for _, child := range e.ChildElements() {
 			walk(child, scope)
 		}
